@@ -131,7 +131,11 @@ def judge_decode(acc, buf, op, case_extra=None, nontrivial=True):
             else:
                 failed = _inconsistent(raw)
                 strict = ref_check_all(raw) & {"bodylength", "checksum", "trailer"}
-                if op in EDIT_OPS and strict and raw in (buf, buf[:len(raw)]):
+                if strict == {"bodylength"} or (not strict and failed == {"bodylength"}):
+                    # one root cause, one signature: BodyLength is never compared with the bytes
+                    acc.violation("C10:bodylength-unverified",
+                                  f"decode returned a frame whose BodyLength disagrees with its byte count (CheckSum consistent): raw={raw!r} (op {op})", case)
+                elif op in EDIT_OPS and strict and raw in (buf, buf[:len(raw)]):
                     # the statement's explicit consequence: a single-byte corruption of a valid
                     # frame is never returned as a message
                     acc.violation(f"C10:corrupt-edit-accepted/{'+'.join(sorted(strict))}/{op}",
